@@ -179,6 +179,10 @@ fn nucleo(capacity: u32, items: u32) {
         for i in 0..items {
             if i % 5 == 4 {
                 inj.extend((0..3u32).map(|k| i * 10 + k).collect::<Vec<_>>().into_iter(), |v, c| c[0] = format!("a{v}b").as_str().into());
+            } else if i % 7 == 3 {
+                // a long haystack whose needle characters lie far apart: the matcher's scoring matrix
+                // is at its largest (sizes are part of what a run varies)
+                inj.push(i, |v, c| c[0] = format!("a{}1{v}", "x".repeat(380 + *v as usize)).as_str().into());
             } else {
                 inj.push(i, |v, c| c[0] = format!("a{v}").as_str().into());
             }
